@@ -2,16 +2,26 @@
     Only statements here; proofs are in Proofs/Http1WriteProofs.v.
 
     Reading guide.  [print_head]/[wire] is what [kvarn_async::write::response] and the body write put on the
-    socket; [send] is [SendKind::send] (range -> content-length -> version -> Package extensions -> connection
-    header -> body unless HEAD); [conn_run] is the request loop of [handle_connection]; [parse_responses] is
-    the strict client of the property: one response per request method, bodies read by content-length (none for
-    HEAD, 1xx, 204, 304), nothing may be left over.
+    socket; [send] is [SendKind::send] (no body for 1xx/204/304 -> range (not for a streamed reply) ->
+    content-length (and no transfer-encoding beside it; not for a stream of unknown length) -> version -> Package
+    extensions -> connection header -> body unless HEAD -> the chunks the reply's future writes, unless HEAD);
+    [conn_run] is the request loop of [handle_connection]; [parse_responses] is the strict client of the property:
+    one response per request method, bodies read by content-length (none for HEAD, 1xx, 204, 304), nothing may be
+    left over; [parse_closing] is the same client on a connection the server ends after the last response, whose
+    body may then run up to the end of the stream.
+    [reply0] is what [handle_cache] returns, including a future ([stream_body], [with_future(_and_len)]): the
+    length it announces, if any, and the chunks it writes.  [unframed r]: the reply streams a body of unknown
+    length (and does not frame it itself by a transfer-encoding); the repaired server closes after it.
+    [reply_ok] are the invariants of the [http] crate for what a handler / [handle_cache] returns (status
+    100..999, lower-case token names, values without CR/LF/NUL.., not HTTP/0.9), the range of
+    [sanitize_request] has start < end, and [stream_ok]: a streamed reply is not a 1xx/204/304, the length it
+    announces is the length of what its body and future write, and a stream of unknown length carries no
+    transfer-encoding / content-length of the handler's own.  Nothing is asked any more about the body of a
+    1xx/204/304 reply or about transfer-encoding beside a known length: [send] repairs both.
     [app_ok app I]: the application keeps an invariant [I] of its state under which its replies satisfy
-    [reply_ok]; [reply_ok] are the invariants of the [http] crate for what a handler / [handle_cache] returns (status
-    100..999, lower-case token names, values without CR/LF/NUL.., no transfer-encoding, not HTTP/0.9) plus: a
-    1xx/204/304 reply has no body, and the range of [sanitize_request] has start < end.  [package_ok]: Package
-    extensions leave version, status and content-length alone.  [polite]: the client addresses a configured
-    host, is not beyond the limiter's drop level, and sends exactly the body its request declares. *)
+    [reply_ok] and are not [unframed].  [package_ok]: Package extensions leave version, status and
+    content-length alone.  [polite]: the client addresses a configured host, is not beyond the limiter's drop
+    level, and sends exactly the body its request declares. *)
 From KV Require Import Bytes RustInt Range Cache Http1Write Http1WriteProofs.
 Open Scope N_scope.
 
@@ -24,30 +34,68 @@ Proof. exact framing_roundtrip_lemma. Qed.
 (** Every output of the send path is well formed for the strict client, and the send path never panics. *)
 Theorem send_output_framed : forall (error_body : N -> option bytes -> bytes) (package : head -> head),
   package_ok package -> forall (m : N) (r : reply0) (s : sent),
-  reply_ok r -> send error_body package m r = Ok s -> framed m s.
+  reply_ok r -> unframed r = false -> send error_body package m r = Ok s -> framed m s.
 Proof. exact send_framed. Qed.
 
 Theorem send_total : forall (error_body : N -> option bytes -> bytes) (package : head -> head),
   package_ok package -> forall (m : N) (r : reply0), reply_ok r -> exists s, send error_body package m r = Ok s.
 Proof. exact send_never_panics. Qed.
 
-(** content-length = number of body bytes written, for every method but HEAD (ranged, compressed, error and
-    304 replies alike: the length is taken after the range step, from the bytes that are written). *)
+(** content-length = number of body bytes written - those of the reply's body and those its future streams -
+    for every method but HEAD (ranged, compressed, error, 304 and streamed replies alike). *)
 Theorem length_is_body : forall (error_body : N -> option bytes -> bytes) (package : head -> head),
   package_ok package -> forall (m : N) (r : reply0) (s : sent),
-  reply_ok r -> m <> M_HEAD -> send error_body package m r = Ok s ->
+  reply_ok r -> unframed r = false -> m <> M_HEAD -> send error_body package m r = Ok s ->
   announced (hd_headers (st_head s)) = Some (N.of_nat (length (st_body s))).
 Proof. exact length_is_body_lemma. Qed.
 
-(** HEAD: no byte follows the head, and the head — status, every header, the announced length — is the one
-    GET gets for the same reply of [handle_cache]; the announced length is the number of body bytes of that GET. *)
+(** HEAD: no byte follows the head - whether the reply holds its body or streams it - and the head (status,
+    every header, the announced length) is the one GET gets for the same reply of [handle_cache]; the announced
+    length is the number of body bytes of that GET. *)
 Theorem head_has_no_body : forall (error_body : N -> option bytes -> bytes) (package : head -> head),
   package_ok package -> forall (r : reply0) (s : sent),
   reply_ok r -> send error_body package M_HEAD r = Ok s ->
   st_body s = [] /\
   exists g, send error_body package M_GET r = Ok g /\ st_head g = st_head s /\
-            announced (hd_headers (st_head s)) = Some (N.of_nat (length (st_body g))).
+            (unframed r = false -> announced (hd_headers (st_head s)) = Some (N.of_nat (length (st_body g)))).
 Proof. exact head_has_no_body_lemma. Qed.
+
+(** A stream of unknown length cannot be framed on a kept connection: no length is announced, the head says
+    [connection: close], and the body is what follows up to the end of the stream. *)
+Theorem unframed_stream_is_close_delimited : forall (error_body : N -> option bytes -> bytes) (package : head -> head),
+  package_ok package -> forall (m : N) (r : reply0) (s : sent),
+  reply_ok r -> unframed r = true -> send error_body package m r = Ok s ->
+  close_framed m s /\ assoc s_connection (hd_headers (st_head s)) = Some (B "close") /\
+  announced (hd_headers (st_head s)) = None.
+Proof. exact send_close_framed. Qed.
+
+(** ... and the server closes after it: on a history of polite requests whose last one - and no earlier one - is
+    answered by such a stream, every request is answered, in order, the connection is closed after the last
+    response, and the client that reads the last body up to the end of the stream recovers every response. *)
+Theorem closing_history :
+  forall (Q A : Type) (q_method : Q -> N) (q_content_length : Q -> option bytes) (q_known_host : Q -> bool)
+         (q_head : Q -> bytes) (app : A -> Q -> A * reply0 * option N) (error_body : N -> option bytes -> bytes)
+         (package : Q -> head -> head) (too_many_body : bytes),
+  packages_ok Q package ->
+  forall (hs : list (hreq Q)) (a : A) (h : hreq Q),
+  run_ok Q A app a hs -> Forall (polite Q q_method q_content_length q_known_host) (hs ++ [h]) -> h_action h = APassed ->
+  reply_ok (snd (fst (app (app_after Q A app a hs) (h_q h)))) ->
+  unframed (snd (fst (app (app_after Q A app a hs) (h_q h)))) = true ->
+  exists (ss : list sent) (s : sent),
+    conn_run Q A q_method q_content_length q_known_host q_head app error_body package too_many_body true true a (Open []) (hs ++ [h])
+      = (map Some (ss ++ [s]), Closed) /\
+    length ss = length hs /\
+    announced (hd_headers (st_head s)) = None /\ assoc s_connection (hd_headers (st_head s)) = Some (B "close") /\
+    parse_closing (map (fun h => q_method (h_q h)) (hs ++ [h])) (written (map Some (ss ++ [s])))
+      = Some (map observable (ss ++ [s])).
+Proof. exact closing_history_lemma. Qed.
+
+(** [extensions::stream_body] announces exactly the bytes its future sends - for every file content and every
+    request (any Range header). *)
+Theorem stream_body_announces : forall (content : bytes) (r : request),
+  fst (stream_body_future true content r)
+  = Some (N.of_nat (length (concat (snd (stream_body_future true content r))))).
+Proof. exact stream_body_announces_lemma. Qed.
 
 (** The connection: for every history of polite requests (any methods, any handlers' replies and use of the
     request body, any split of each body between the head's segment and later, any mix of passed and
@@ -97,6 +145,18 @@ Theorem checked_history_is_instance : forall (cfg : c8cfg) (reqs : list (c8req *
                              (written (map Some ss)) = Some (map observable ss).
 Proof. exact checked_history_lemma. Qed.
 
+(** The same tie for the histories that meet a stream of unknown length (fifth field of [h1w.expect]): up to and
+    including the first such answer the history is an instance of [closing_history]. *)
+Theorem checked_closing_history_is_instance : forall (cfg : c8cfg) (reqs : list (c8req * bytes * nat)) (n : nat),
+  c8_hyps_closing cfg (c8_state0 cfg) (with_actions (c8_limit cfg) 1 reqs) O = Some n ->
+  exists pre h post ss s,
+    with_actions (c8_limit cfg) 1 reqs = pre ++ h :: post /\ n = S (length pre) /\
+    c8_run_hs true true cfg (pre ++ [h]) = (map Some (ss ++ [s]), Closed) /\ length ss = length pre /\
+    announced (hd_headers (st_head s)) = None /\ assoc s_connection (hd_headers (st_head s)) = Some (B "close") /\
+    parse_closing (map (fun h => rq_method (q_req (h_q h))) (pre ++ [h])) (written (map Some (ss ++ [s])))
+      = Some (map observable (ss ++ [s])).
+Proof. exact checked_closing_history_lemma. Qed.
+
 (** The ways the loop ends a connection: once closed nothing more is written; an unknown Host gets a
     well-formed 409 and the connection is closed; a request beyond the limiter's drop level closes it unanswered. *)
 Theorem closed_is_silent :
@@ -138,32 +198,70 @@ Theorem limited_head_v0_refuted :
     (parse_responses [M_HEAD; M_GET] (wire (limited TOO_MANY true M_HEAD) ++ wire (limited TOO_MANY true M_GET))) = Some [429; 429].
 Proof. exact limited_head_v0_witness. Qed.
 
-(** The hypothesis "a 204 reply has no body" of [reply_ok] is needed: kvarn sends such a handler's body. *)
-Theorem bodyless_status_with_body_refuted :
-  exists r s, send hardcoded_error_body (fun h => h) M_GET r = Ok s /\ r0_status r = 204 /\ r0_body r <> [] /\
-              parse_responses [M_GET] (wire s) = None.
+(** The five defects of the send path repaired on the way ([send_v0] is the code before): a handler's 204 with a
+    body; a streamed reply to HEAD; a stream of unknown length on a kept connection; transfer-encoding beside
+    content-length; [stream_body] and a range that reaches past the end of the file.  Each was reproduced on the
+    real code through the harness before the repair, and is replayed on the repaired code by the corpus. *)
+Theorem bodyless_status_with_body_v0_refuted :
+  (exists s, w_send_v0 M_GET w_204 = Ok s /\ parse_responses [M_GET] (wire s) = None) /\
+  (exists s, w_send M_GET w_204 = Ok s /\ st_body s = [] /\
+             option_map (map p_status) (parse_responses [M_GET] (wire s)) = Some [204]).
 Proof. exact bodyless_with_body_witness. Qed.
+
+Theorem head_stream_v0_refuted :
+  parse_responses [M_HEAD; M_GET] (w_pair w_send_v0 w_stream) = None /\
+  option_map (map (fun p => (p_status p, p_body p))) (parse_responses [M_HEAD; M_GET] (w_pair w_send w_stream))
+    = Some [(200, []); (200, B "hello world")].
+Proof. exact head_stream_v0_witness. Qed.
+
+Theorem unframed_stream_v0_refuted :
+  (exists s, w_send_v0 M_GET w_nolen = Ok s /\ announced (hd_headers (st_head s)) = None /\
+             assoc s_connection (hd_headers (st_head s)) = Some s_keep_alive /\
+             parse_responses [M_GET] (wire s) = None) /\
+  (exists s, w_send M_GET w_nolen = Ok s /\ assoc s_connection (hd_headers (st_head s)) = Some (B "close") /\
+             option_map (map p_body) (parse_closing [M_GET] (wire s)) = Some [B "abcdefg"]).
+Proof. exact unframed_stream_v0_witness. Qed.
+
+Theorem te_with_length_v0_refuted :
+  (exists s, w_send_v0 M_GET w_te = Ok s /\ parse_responses [M_GET] (wire s) = None) /\
+  (exists s, w_send M_GET w_te = Ok s /\
+             option_map (map p_body) (parse_responses [M_GET] (wire s)) = Some [B "with te"]).
+Proof. exact te_with_length_v0_witness. Qed.
+
+Theorem stream_body_range_v0_refuted :
+  exists content r, fst (stream_body_future false content r)
+                    <> Some (N.of_nat (length (concat (snd (stream_body_future false content r))))).
+Proof. exact stream_body_range_v0_witness. Qed.
 
 (** ---- non-vacuity ---- *)
 Definition ex_reply : reply0 :=
-  mkR0 11 200 [(B "content-type", B "text/plain"); (B "x-tag", B "a b\tc")] (B "hello world") (Some (Some (2, 6))).
-Example ex_reply_ok : reply_ok ex_reply.
+  mkR0 11 200 [(B "content-type", B "text/plain"); (B "x-tag", B "a b\tc")] (B "hello world") (Some (Some (2, 6))) None.
+Example ex_reply_ok : reply_ok ex_reply /\ unframed ex_reply = false.
 Proof.
+  split; [|reflexivity].
   unfold reply_ok, ex_reply. cbn [r0_status r0_version r0_headers r0_body r0_sanitize].
   split; [lia|]. split; [discriminate|]. split; [repeat constructor|]. split; [repeat constructor|].
-  split; [reflexivity|]. split; [discriminate|]. left. lia.
+  split; [lia | exact Logic.I].
+Qed.
+(** streamed replies: one with an announced length, one of unknown length, a 204 with a body, a reply with
+    transfer-encoding - all within [reply_ok] *)
+Example ex_stream_ok : reply_ok w_stream /\ unframed w_stream = false /\ reply_ok w_nolen /\ unframed w_nolen = true /\
+                       reply_ok w_204 /\ reply_ok w_te.
+Proof.
+  assert (H : forall r, reply_okb r = true -> reply_ok r) by exact reply_okb_sound.
+  repeat split; try reflexivity; apply H; vm_compute; reflexivity.
 Qed.
 Example ex_package_ok : package_ok (fun h => h).
 Proof. exact package_id_ok. Qed.
 (** an application meeting [app_ok]: every request is answered with [ex_reply], bodies are read up to 5 bytes *)
 Example ex_app_ok : app_ok unit unit (fun a _ => (a, ex_reply, Some 5)) (fun _ => True) /\ packages_ok unit (fun _ h => h).
-Proof. split; [intros a q _; split; [exact ex_reply_ok | exact Logic.I] | intros q; exact package_id_ok]. Qed.
+Proof. split; [intros a q _; split; [exact (proj1 ex_reply_ok) | split; [reflexivity | exact Logic.I]] | intros q; exact package_id_ok]. Qed.
 (** GET, HEAD and a 416 on one connection: what is written and what the strict client reads *)
 Example ex_sequence :
   exists g h e,
     send hardcoded_error_body (fun x => x) M_GET ex_reply = Ok g /\
     send hardcoded_error_body (fun x => x) M_HEAD ex_reply = Ok h /\
-    send hardcoded_error_body (fun x => x) M_GET (mkR0 11 200 [] (B "abc") (Some (Some (7, 9)))) = Ok e /\
+    send hardcoded_error_body (fun x => x) M_GET (mkR0 11 200 [] (B "abc") (Some (Some (7, 9))) None) = Ok e /\
     option_map (map (fun p => (p_status p, p_body p, announced (p_headers p))))
       (parse_responses [M_GET; M_HEAD; M_GET] (wire g ++ wire h ++ wire e))
     = Some [(206, B "llo ", Some 4); (206, [], Some 4); (416, hardcoded_error_body 416 (Some (B "Range start after end of body")), Some 290)].
@@ -175,7 +273,7 @@ Proof. vm_compute. reflexivity. Qed.
 (** a polite history on the fixture host: POST with an unread late body, HEAD, ranged GET, rate-limited GET *)
 Example ex_history :
   let '(os, fin) := c8_run true true
-        (mkC8 (mkCfg true false true [] [] [] 500) [(B "/f.txt", B "0123456789abcdefghij")] [] 3)
+        (mkC8 (mkCfg true false true [] [] [] 500) [(B "/f.txt", B "0123456789abcdefghij")] [] 3 [])
         [ w_req (B "POST") (B "/f.txt") [(B "content-length", B "10")] (B "0123456789") 4;
           w_req (B "HEAD") (B "/f.txt") [] [] 0;
           w_req (B "GET") (B "/f.txt") [(B "range", B "bytes=5-9")] [] 0;
@@ -188,7 +286,29 @@ Example ex_checked_history :
   c8_hyps w_cfg (c8_state0 w_cfg) (with_actions (c8_limit w_cfg) 1 w_unread) = true.
 Proof. vm_compute. reflexivity. Qed.
 Example ex_polite :
-  polite c8req (fun q => rq_method (q_req q)) (fun q => header s_content_length (q_req q)) (fun q => negb (q_nohost q))
+  polite c8req (fun q => rq_method (q_req q)) c8_content_length (fun q => negb (q_nohost q))
          (mkHreq c8req (fst (fst (w_req (B "POST") (B "/f.txt") [(B "content-length", B "10")] (B "0123456789") 4)))
                  (B "0123456789") 4 APassed).
 Proof. unfold polite. split; [reflexivity|]. split; [discriminate|]. vm_compute. reflexivity. Qed.
+(** a history on a host with streaming handlers: GET and HEAD of a streamed file, a range reaching past its
+    end, then a stream of unknown length, after which the server closes *)
+Definition ex_scfg : c8cfg :=
+  mkC8 (mkCfg true false true [] [] [] 500) [(B "/s/file.txt", B "streamed file content")] [] 0
+       [(B "/s/file.txt", (0, 0, [])); (B "/st/nolen", (1, 0, [B "abc"; B "defg"]))].
+Definition ex_sreqs : list (c8req * bytes * nat) :=
+  [ w_req (B "GET") (B "/s/file.txt") [] [] 0; w_req (B "HEAD") (B "/s/file.txt") [] [] 0;
+    w_req (B "GET") (B "/s/file.txt") [(B "range", B "bytes=9-999")] [] 0; w_req (B "GET") (B "/st/nolen") [] [] 0;
+    w_req (B "GET") (B "/s/file.txt") [] [] 0 ].
+Example ex_closing_history :
+  c8_hyps_closing ex_scfg (c8_state0 ex_scfg) (with_actions 0 1 ex_sreqs) O = Some 4%nat /\
+  (let '(os, fin) := c8_run true true ex_scfg ex_sreqs in
+   statuses os = [Some 200; Some 200; Some 200; Some 200; None] /\ fin = Closed /\
+   option_map (map (fun p => (announced (p_headers p), p_body p)))
+     (parse_closing [M_GET; M_HEAD; M_GET; M_GET] (written os))
+   = Some [(Some 21, B "streamed file content"); (Some 21, []); (Some 12, B "file content"); (None, B "abcdefg")]).
+Proof. vm_compute. repeat split. Qed.
+(** TRACE (and CONNECT) declare no body to kvarn whatever their content-length says *)
+Example ex_trace_declares_nothing :
+  body_length M_OTHER (c8_content_length (fst (fst (w_req (B "TRACE") (B "/f.txt") [(B "content-length", B "5")] (B "hello") 0)))) = 0 /\
+  body_length M_OTHER (c8_content_length (fst (fst (w_req (B "PUT") (B "/f.txt") [(B "content-length", B "5")] (B "hello") 0)))) = 5.
+Proof. vm_compute. split; reflexivity. Qed.
